@@ -1,4 +1,5 @@
 import FitProps.FileDefLemmas
+import FitProps.ListenerLemmas
 /-! # C14 — File types conserve messages; the concurrent listener equals sequential building
 
 First half: the 17 common file types (`Fit.FileDef`, tables regenerated from /repo on every run).
@@ -187,5 +188,90 @@ theorem C14_KF2_witness :
     (toFIT pinnedWorkout (build pinnedWorkout kf2Msgs)).drop 1 ≠
       sortStable ((restGroups pinnedWorkout (build pinnedWorkout kf2Msgs)).flatten)
     ∧ sortedB ((toFIT pinnedWorkout (build pinnedWorkout kf2Msgs)).drop 1) = false := by decide
+
+/-! ## Second half: the concurrent listener (`Fit.Listener`, a transition system over listener.go)
+
+Quantifiers: every channel-buffer size N ≥ 1 (initially and in every `Reset`), every script of `OnMesg` / `File` / `Close` /
+`Reset` calls of any length (chained sequences, reuse after Reset/Close), every interleaving of producer and worker
+(`Reachable` closes over both threads' steps). Generic in the message type and in `processMesg`.
+
+Runtime truth vs. proved: the theorems are about the model's channel semantics (Go spec: buffered send/receive, close,
+nil channel) and its slice tokens. That the compiled listener has no word-level data race is sampled with the race
+detector (thorough tier), not proved; what is proved is that in the model no slice and no access to `l.file` is ever
+shared between the two threads (`C14_listener_inv`). -/
+section Listener
+open Fit.Listener
+variable {M σ : Type} (proc : σ → M → σ) (init : σ)
+
+/-- **Exclusive ownership** (`listener_inv`): in every reachable state every pooled slice is in exactly one place —
+pool channel, message queue, producer's hands, worker's hands (no duplicates among them) — and none is lost (N in total);
+the producer touches the file cell (`File` reads it, `reset()` overwrites it — both only after `<-l.done` or while
+inactive) only when the worker has exited. -/
+theorem C14_listener_inv {N : Nat} {script : List (Cmd M)} (hN : 1 ≤ N) (hs : PosScript script) {s : St M σ}
+    (hr : Reachable proc init N script s) :
+    (tokens s).Nodup ∧ (tokens s).length = s.N ∧ (s.done = true ↔ s.c = .exited) ∧ (s.active = false → s.c = .exited) := by
+  have inv := inv_reachable proc init hN hs hr
+  exact ⟨inv.nodup, inv.count, inv.doneIff, fun h => (inv.inactive h).2⟩
+
+/-- **Deadlock freedom**: in every reachable state in which the producer still has calls to make or to finish, some
+thread can take a step — for every N ≥ 1 and every interleaving. -/
+theorem C14_listener_deadlock_free {N : Nat} {script : List (Cmd M)} (hN : 1 ≤ N) (hs : PosScript script) {s : St M σ}
+    (hr : Reachable proc init N script s) (hfin : isFin s.p = false) : ∃ s', Step proc init s s' := by
+  rcases progress proc init (inv_reachable proc init hN hs hr) hfin with h | h
+  · obtain ⟨s', hs'⟩ := Option.isSome_iff_exists.mp h; exact ⟨s', Or.inl hs'⟩
+  · obtain ⟨s', hs'⟩ := Option.isSome_iff_exists.mp h; exact ⟨s', Or.inr hs'⟩
+
+/-- **The listener equals sequential execution** (`listener_fifo` ⇒): whenever the producer has made all its calls, the
+files handed out by `File()` are exactly those of the same calls executed by one thread without pool, queue or worker. -/
+theorem C14_listener_eq_sequential {N : Nat} {script : List (Cmd M)} (hN : 1 ≤ N) (hs : PosScript script) {s : St M σ}
+    (hr : Reachable proc init N script s) (hfin : isFin s.p = true) :
+    s.results = seqRun proc init true init script :=
+  final_results proc init (inv_reachable proc init hN hs hr) hfin
+
+/-- **No carry-over**: whenever the listener is inactive (after `File`/`Close`) the worker is gone, the queue is empty
+and all N slices are back in the pool (distinct); the next `OnMesg` starts from the empty file cell. -/
+theorem C14_listener_no_carry_over {N : Nat} {script : List (Cmd M)} (hN : 1 ≤ N) (hs : PosScript script) {s : St M σ}
+    (hr : Reachable proc init N script s) (ha : s.active = false) :
+    s.c = .exited ∧ s.queue = [] ∧ s.pool.length = s.N ∧ s.pool.Nodup ∧
+    ∀ m cs s', s.script = .onMesg m :: cs → stepP init s = some s' → s'.file = init ∧ s'.queue = [] ∧ s'.pool = s.pool :=
+  no_carry_over proc init (inv_reachable proc init hN hs hr) ha
+
+/-- the run the driver prints (a seeded scheduler) is one of the interleavings the theorems quantify over -/
+theorem C14_listener_run_is_path {N : Nat} {script : List (Cmd M)} (pick : Nat → Bool) (fuel : Nat) :
+    Reachable proc init N script (run proc init pick fuel 0 (initSt init N script)) :=
+  run_reachable proc init pick fuel 0 _ Reachable.init
+
+/-- **Known finding KF-C14-1 (F15)**: with channel-buffer size 0 a deadlock is reachable as soon as a message arrives —
+initially, and after `Reset(WithChannelBuffer(0))`. (So `1 ≤ N` / `PosScript` above cannot be dropped.) -/
+theorem C14_KF1_buffer0_deadlock (m : M) (cs : List (Cmd M)) :
+    (∃ s : St M σ, Reachable proc init 0 (.onMesg m :: cs) s ∧ Deadlocked proc init s) ∧
+    (∃ s : St M σ, Reachable proc init 1 (.reset 0 :: .onMesg m :: cs) s ∧ Deadlocked proc init s) :=
+  ⟨buffer0_deadlock proc init m cs, buffer0_after_reset_deadlock proc init m cs⟩
+
+end Listener
+
+/-- the full demand: for EVERY buffer size (0 included) no reachable deadlock — false, see `C14_KF1_buffer0_deadlock` -/
+def C14_listener_deadlock_free_full : Prop :=
+  ∀ (N : Nat) (script : List (Listener.Cmd Msg)) (s : Listener.St Msg Listener.FileCell),
+    Listener.Reachable Listener.processMesg none N script s → ¬ Listener.Deadlocked Listener.processMesg none s
+
+/-- **Listener = sequential building of a file**: for a sequence that starts with a file_id of a known file type `T` and has
+no other file_id, the one-thread specification (and therefore, by `C14_listener_eq_sequential`, the concurrent listener
+under every schedule and every N ≥ 1) yields exactly `filedef.NewT(msgs...)`. -/
+theorem C14_listener_builds_file {T : FileType} (fid : Msg) (rest : List Msg)
+    (h0 : fid.num = mesgNumFileId) (hT : fileTypeOf fid.ft = some T) (hrest : ∀ m ∈ rest, m.num ≠ mesgNumFileId) :
+    Listener.seqRun Listener.processMesg none true none ((fid :: rest).map .onMesg ++ [.file]) =
+      [some (T, build T (fid :: rest))] := by
+  rw [Listener.seqRun_onMesgs]
+  simp only [Listener.seqRun, List.foldl_cons, Listener.processMesg, h0, if_true, hT]
+  rw [Listener.foldl_processMesg T rest hrest]
+  rfl
+
+/-- non-vacuity of the hypotheses: buffer size 1, a script with a Reset to size 2 -/
+example : (1 : Nat) ≤ 1 ∧ Listener.PosScript ([.onMesg (default : Msg), .reset 2, .file] : List (Listener.Cmd Msg)) := by
+  refine ⟨Nat.le_refl 1, ?_⟩
+  intro n h
+  simp at h
+  omega
 
 end Fit.C14
